@@ -98,6 +98,8 @@ def inspected_histories(rng, nhist, nreg):
     for tid in range(nhist):
         if tid % 3 == 2:
             units = ["m", "cm", "Mcf", "s", "1000ft3"]       # the application registers a symbol that is itself a legacy spelling
+        elif tid % 3 == 1:
+            units = ["m", "cm", "Mcf", "s", "S", "MCF"]      # symbols that differ only in letter case (FindUnitCase)
         else:
             units = ["m", "cm", "Mcf", "s"]
         w = regworld.RegWorld(regcheck_factors())
@@ -124,6 +126,7 @@ def inspected_histories(rng, nhist, nreg):
                 battery = [("GetDefaultCategory", {"u": u}) for u in spell] + [("Scalar", {"c": NONE, "u": u, "form": "U"}) for u in spell]
                 battery += [("Obtain", {"u": u, "c": NONE}) for u in units] + [("Scalar", {"c": c, "u": NONE, "form": "C"}) for c in cats]
                 battery += [("GetValidUnits", {"c": c}) for c in cats] + [("GetBaseUnit", {"qt": q}) for q in qts]
+                battery += [("FindUnitCase", {"c": c, "u": q_}) for c in cats for q_ in ("M", "cM", "mcf", "S", "s", "MCF", "x")]
                 for op, a in rng.sample(battery, len(battery) // 2):
                     do(op, a)
         finally:
